@@ -179,6 +179,23 @@ def check(case, results):
             continue
         if name == "fs_build":
             built[op[1]] = ev["phys"]
+            if op[2] == "script":
+                # the object the round trips start from must itself say what the description says (sample times in SI etc.)
+                sp = case["scripts"][0]["phys"]["sp"]
+                ph = ev["phys"]
+                got_ts = ph["t_sample"][0]
+                bad = None
+                if len(got_ts) != len(sp["t_sample"]) or any(abs(a - b) > 1e-12 * max(abs(a), abs(b)) for a, b in zip(got_ts, sp["t_sample"])):
+                    bad = "t_sample %s s, the description says %s s" % (got_ts[:5], sp["t_sample"][:5])
+                elif abs(ph["time_step"][0] - sp["dt"]) > 1e-12 * sp["dt"]:
+                    bad = "time_step %r s vs %r s" % (ph["time_step"][0], sp["dt"])
+                elif sp["seed"] is not None and ph["rng_seed"] != sp["seed"]:
+                    bad = "rng_seed %r vs %r" % (ph["rng_seed"], sp["seed"])
+                elif ph["init_state_processing"] != sp["isp"] or ph["sampling_policy"] != sp["policy"]:
+                    bad = "processing mode / policy %r %r vs %r %r" % (ph["init_state_processing"], ph["sampling_policy"], sp["isp"], sp["policy"])
+                if bad:
+                    viol.append(dict(ctx, oracle="C12.object-matches-description", op=oi,
+                                     detail="the script object built from the description differs from it: " + bad))
         elif name == "fs_phys":
             d = P.diff(built[op[1]], ev["phys"])
             if d:
